@@ -149,14 +149,21 @@ func VerifC20_RouterResults() {
 // VerifC20_WaitingExits: in every execution of the symbolic flow pairs, the
 // exit by which a resumed run leaves its wait node is among the waiting exits
 // the flow's inspection lists.
-// cover: left-by-waiting-exit, timeout-exit
+// cover: left-by-waiting-exit, timeout-exit, offline-flow
 func VerifC20_WaitingExits() {
 	sa := verifNewAssets()
 	counts := []int{1, 1}
 	if zzverif.Thorough() {
 		counts = []int{2, 1}
 	}
+	// messaging flows, or offline (Surveyor) flows, which may contain the same msg waits
+	verifFlowType = flows.FlowTypeMessaging
+	if zzverif.Choice("offline-flows", 2) == 1 {
+		verifFlowType = flows.FlowTypeMessagingOffline
+		zzverif.Cover("offline-flow")
+	}
 	verifSymbolicFlows(sa, counts)
+	verifFlowType = flows.FlowTypeMessaging
 	verifLazyOutcomes = true
 	sess, _, err := verifEngine(3, 10).NewSession(sa, verifTrigger(sa, verifContact(sa)))
 	if err != nil || sess.Status() != flows.SessionStatusWaiting {
